@@ -24,4 +24,6 @@ ASSUME Palettes == /\ AnsOpts \cup LeafAns \cup ListAns \subseteq DOMAIN AnsTabl
                    /\ LeafCmp \cap ErrEvents = {}
                    /\ TableGrades \subseteq DOMAIN CreditVal
                    /\ MaxAlts <= Len(AltMark)
+                   /\ PreOpts \subseteq {"reg", "other", "reg_other"}
+                   /\ AttOpts \subseteq {"none"} \cup DOMAIN AttRaw
 =============================================================================
